@@ -31,11 +31,11 @@ fn info(tier: Tier) -> CheckInfo {
         id: "C07",
         level: "model_checking",
         rule: format!(
-            "Tier {}: one real initiator and M in {} scripted endpoints with BEP42-secure ids on distinct public IPs; initial knowledge in {{one far bootstrap node, three far nodes, all nodes ranked beyond 20}}; up to {} 'varying' endpoints chosen among XOR ranks {{1,2,19,20,21,22}}, each behaving as one of {{lists nothing, lists everybody, lists only farther nodes, lists the asker + a duplicate + a same-IP sibling, silent, insecure id, holds a value and is the only one that knows the closest node}}, every other endpoint lists its 8 next-closer nodes; lookup kinds find_node, get_closest_nodes, get_peers and the lookup phase of put_immutable{}. Oracle from the datagram trace only: no address is asked again after it answered or timed out; at completion every one of the 20 closest entries (secure first, then XOR) among the nodes the lookup knew or was told about has been asked; find_node reports exactly the first min(20,n) of them; get_closest_nodes / the store set is a prefix of the ordered responders of length >= min(20, responders) and the writes go to exactly that set.",
+            "Tier {}: one real initiator and M in {} scripted endpoints with BEP42-secure ids on distinct public IPs; initial knowledge in {{one far bootstrap node, three far nodes, all nodes ranked beyond 20}}; up to {} 'varying' endpoints chosen among XOR ranks {{1,2,19,20,21,22}}, each behaving as one of {{lists nothing, lists everybody, lists only farther nodes, lists the asker + a duplicate + a same-IP sibling, silent, insecure id, holds a value and is the only one that knows the closest node}}, every other endpoint lists its 8 next-closer nodes; lookup kinds find_node, get_closest_nodes, get_peers, the lookup phase of put_immutable, and get_immutable of a 1000-byte value whose holder's answer (value + every node it knows, ~1.7 kB) is the only source of the closest node; every single latency deviation (225/450 ms: answers overtaking each other) on the replies of the base configurations{}. Oracle from the datagram trace only: no address is asked again after it answered or timed out; at completion every one of the 20 closest entries (counting every answer delivered before completion or within the 500 ms minimum request timeout of its request) (secure first, then XOR) among the nodes the lookup knew or was told about has been asked; find_node reports exactly the first min(20,n) of them; get_closest_nodes / the store set is a prefix of the ordered responders of length >= min(20, responders) and the writes go to exactly that set.",
             tier.name(),
             if tier.is_quick() { "{3,23}" } else { "{3,21,23,26}" },
             if tier.is_quick() { 2 } else { 3 },
-            if tier.is_quick() { "" } else { "; plus every single latency deviation (225/450 ms) on the replies of the base configurations" }
+            if tier.is_quick() { "" } else { " and of the single-variation configurations at ranks 20/21" }
         ),
         assumptions: vec![
             "loss-free network, latencies below the request timeout".into(),
@@ -60,7 +60,7 @@ enum Beh {
 
 const BEHS: [Beh; 8] = [Beh::Nothing, Beh::Everything, Beh::FartherOnly, Beh::Weird, Beh::Silent, Beh::Insecure, Beh::ValueSoleWitness, Beh::Next8];
 const RANKS: [usize; 6] = [1, 2, 19, 20, 21, 22];
-const KINDS: [&str; 4] = ["find_node", "get_closest_nodes", "get_peers", "put_immutable"];
+const KINDS: [&str; 5] = ["find_node", "get_closest_nodes", "get_peers", "put_immutable", "get_immutable(1000 bytes)"];
 
 #[derive(Clone, Debug)]
 struct Cfg {
@@ -73,9 +73,17 @@ struct Cfg {
 
 const PUT_VALUE: &[u8] = b"c07 value";
 
+/// The largest immutable value BEP44 allows: an answer carrying it together with 20+ closer
+/// nodes is the largest datagram a lookup legitimately receives (about 1.7 kB).
+fn big_value() -> Vec<u8> {
+    (0..1000u32).map(|i| (i * 7 + 3) as u8).collect()
+}
+
 fn target_of(kind: usize) -> Id20 {
     if kind == 3 {
         krpc::immutable_target(PUT_VALUE)
+    } else if kind == 4 {
+        krpc::immutable_target(&big_value())
     } else {
         let mut t = [0x6Bu8; 20];
         t[0] = 0x12;
@@ -163,6 +171,9 @@ fn scenario(chooser: Chooser, cfg: &Cfg, faults: bool, track: bool) -> (Chooser,
                 if cfg.kind == 3 {
                     e.imm.insert(target, PUT_VALUE.to_vec());
                 }
+                if cfg.kind == 4 {
+                    e.imm.insert(target, big_value());
+                }
             }
         }
     }
@@ -209,7 +220,8 @@ fn scenario(chooser: Chooser, cfg: &Cfg, faults: bool, track: bool) -> (Chooser,
         0 => w.call_find_node(a, target.into()),
         1 => w.call_get_closest_nodes(a, target.into()),
         2 => w.call_get_peers(a, target.into()),
-        _ => w.call_put_immutable(a, PUT_VALUE.to_vec()),
+        3 => w.call_put_immutable(a, PUT_VALUE.to_vec()),
+        _ => w.call_get_immutable(a, target.into()),
     };
     let h = w.now + 60 * SEC;
     w.run_until(h, |w, ev| {
@@ -221,6 +233,15 @@ fn scenario(chooser: Chooser, cfg: &Cfg, faults: bool, track: bool) -> (Chooser,
     let done = w.result(call).is_some();
     let done_at = w.now;
     w.faults.enabled = false;
+    // let answers that are still on their way arrive: an answer delivered within the minimum
+    // request timeout of its request was received in time whatever the lookup did meanwhile
+    let h = w.now + SEC;
+    w.run_until(h, |w, ev| {
+        if let Event::EndpointRecv { ep, dgram } = ev {
+            net.handle(w, *ep, dgram);
+        }
+        false
+    });
     // ------------------------------------------------------------------ oracle from the trace
     let mut v: Vec<(String, String)> = vec![];
     let lookup_q: &[&str] = match cfg.kind {
@@ -232,6 +253,7 @@ fn scenario(chooser: Chooser, cfg: &Cfg, faults: bool, track: bool) -> (Chooser,
     let mut asked: Vec<SocketAddrV4> = vec![];
     let mut asked_at: Vec<(SocketAddrV4, u64)> = vec![];
     let mut tid_to: BTreeMap<Vec<u8>, SocketAddrV4> = BTreeMap::new();
+    let mut tid_sent: BTreeMap<Vec<u8>, u64> = BTreeMap::new();
     let mut stores: Vec<SocketAddrV4> = vec![];
     // entries the lookup knew or was told about, in arrival order
     let mut told: Vec<(Id20, SocketAddrV4)> = vec![];
@@ -245,6 +267,7 @@ fn scenario(chooser: Chooser, cfg: &Cfg, faults: bool, track: bool) -> (Chooser,
                     asked.push(dgram.to);
                     asked_at.push((dgram.to, dgram.sent_at));
                     tid_to.insert(k.t.clone(), dgram.to);
+                    tid_sent.insert(k.t.clone(), dgram.sent_at);
                 } else if q == "put" {
                     stores.push(dgram.to);
                 }
@@ -257,7 +280,8 @@ fn scenario(chooser: Chooser, cfg: &Cfg, faults: bool, track: bool) -> (Chooser,
         if let LogEntry::Sent { dgram, .. } = e {
             if dgram.to == a_addr && dgram.from_node.is_none() {
                 if let Some(at) = delivered.get(&dgram.id) {
-                    if *at <= done_at {
+                    let in_time = Krpc::parse(&dgram.bytes).and_then(|k| tid_sent.get(&k.t).copied()).map(|sent| *at < sent + 500 * MS).unwrap_or(false);
+                    if *at <= done_at || in_time {
                         answers.push((*at, dgram));
                     }
                 }
@@ -365,6 +389,13 @@ fn scenario(chooser: Chooser, cfg: &Cfg, faults: bool, track: bool) -> (Chooser,
                     v.push((format!("find_node-result/{class}"), format!("find_node returned {} nodes; the first min(20,n) known entries are {} (n={})", got.len(), want.len(), cand.len())));
                 }
             }
+            Some(CallResult::Bytes(b)) => {
+                // the holder's (large) answer was delivered in time: the value must come out
+                let holder_answered = sole_witness.map(|i| answered_at.contains_key(&eps[i])).unwrap_or(false);
+                if holder_answered && b.as_deref() != Some(&big_value()[..]) {
+                    v.push(("value-answer-ignored".into(), format!("the holder's {}-byte answer was delivered but get_immutable returned {:?} bytes", answers.iter().filter(|(_, d)| Some(d.from) == sole_witness.map(|i| eps[i])).map(|(_, d)| d.bytes.len()).max().unwrap_or(0), b.as_ref().map(|x| x.len()))));
+                }
+            }
             Some(CallResult::Nodes(nodes)) => {
                 let got: Vec<(Id20, SocketAddrV4)> = nodes.iter().map(|n| (*n.id().as_bytes(), n.address())).collect();
                 let min = 20.min(resp.len());
@@ -427,7 +458,7 @@ fn configs(tier: Tier) -> Vec<Cfg> {
     for &m in ms {
         let ranks: Vec<usize> = RANKS.iter().cloned().filter(|r| *r <= m).collect();
         for knowledge in 0..3 {
-            for kind in 0..4 {
+            for kind in 0..5 {
                 for set in subsets(ranks.len(), max_vary) {
                     // every behaviour assignment except the all-default one being repeated
                     let nb = BEHS.len() - 1; // Next8 (the default) is not a variation
@@ -436,6 +467,10 @@ fn configs(tier: Tier) -> Vec<Cfg> {
                         let vary: Vec<(usize, usize)> = set.iter().enumerate().map(|(j, ri)| (ranks[*ri], (c / nb.pow(j as u32)) % nb)).collect();
                         // the sole-witness role only exists at rank 2, and once
                         if vary.iter().any(|(r, b)| BEHS[*b] == Beh::ValueSoleWitness && *r != 2) {
+                            continue;
+                        }
+                        // the large-value lookup only differs from the others when somebody holds the value
+                        if kind == 4 && !vary.is_empty() && !vary.iter().any(|(_, b)| BEHS[*b] == Beh::ValueSoleWitness) {
                             continue;
                         }
                         v.push(Cfg { m, knowledge, kind, vary });
@@ -501,10 +536,11 @@ fn run(tier: Tier, shard: usize, nshards: usize, _seed: u64) -> Partial {
         let (_, o) = scenario(Chooser::default_run(), c, false, i % 50 == shard);
         record(c, &[], &o, &mut out);
     }
-    if !tier.is_quick() {
-        // every single latency deviation on the base configurations (no varying endpoints) and
-        // on the single-variation ones at ranks 20/21
-        let base: Vec<&Cfg> = cfgs.iter().filter(|c| c.vary.is_empty() || (c.vary.len() == 1 && (c.vary[0].0 == 20 || c.vary[0].0 == 21))).collect();
+    {
+        // every single latency deviation (answers overtaking each other) on the base
+        // configurations (no varying endpoints) and, in the thorough tier, on the
+        // single-variation ones at ranks 20/21
+        let base: Vec<&Cfg> = cfgs.iter().filter(|c| c.vary.is_empty() || (!tier.is_quick() && c.vary.len() == 1 && (c.vary[0].0 == 20 || c.vary[0].0 == 21))).collect();
         for (i, c) in base.iter().enumerate() {
             if i % nshards != shard {
                 continue;
